@@ -580,23 +580,23 @@ func (l *Lexer) SkipStreamEOL() error {
 // ReadBytes reads exactly n bytes from the underlying reader.
 // Used for reading binary stream data where tokenization is not appropriate.
 func (l *Lexer) ReadBytes(n int) ([]byte, error) {
-	data := make([]byte, n)
-	totalRead := 0
+	if n < 0 {
+		return nil, fmt.Errorf("invalid byte count: %d", n)
+	}
 
-	for totalRead < n {
-		bytesRead, err := l.reader.Read(data[totalRead:])
-		totalRead += bytesRead
-		l.pos += int64(bytesRead)
+	// n comes from the file (/Length): never allocate it up front. Grow the
+	// buffer only as data actually arrives, so a hostile length costs no more
+	// memory than the file has bytes.
+	var buf bytes.Buffer
+	read, err := io.CopyN(&buf, l.reader, int64(n))
+	l.pos += read
+	data := buf.Bytes()
 
-		if err == io.EOF && totalRead < n {
-			return data[:totalRead], fmt.Errorf("unexpected EOF: expected %d bytes, got %d", n, totalRead)
-		}
-		if err != nil && err != io.EOF {
-			return data[:totalRead], err
-		}
-		if err == io.EOF {
-			break
-		}
+	if err == io.EOF {
+		return data, fmt.Errorf("unexpected EOF: expected %d bytes, got %d", n, read)
+	}
+	if err != nil {
+		return data, err
 	}
 
 	return data, nil
